@@ -29,6 +29,10 @@ class Module(object):
     self.src = src
     self.lines = src.replace('\r', '').split('\n')
     self.tree = ast.parse(src, rel)
+    self.norm_stats = {}
+    if os.environ.get('SA_NO_NORMALIZE') != '1':
+      from .normalize import normalize_module
+      self.tree = normalize_module(self.tree, rel, self.norm_stats)
     self.imports = {}     # local name -> (module dotted name, attr or None)
     self.classes = {}
     self.functions = {}
